@@ -994,7 +994,7 @@ fn vp_native_stalled_body_is_an_error_body() {
     let mut cases = 0u64;
     let handles: Vec<std::thread::JoinHandle<u64>> = ["chunked-inside-chunk", "chunked-after-chunk", "chunked-in-size-line", "chunked-before-last-crlf", "length"].into_iter().map(|shape| {
         let payload = payload.clone();
-        std::thread::spawn(move || { let mut cases = 0u64;
+        std::thread::Builder::new().name("worker of vp_native_stalled_body_is_an_error".into()).spawn(move || { let mut cases = 0u64;
         for helper in ["bytes", "write_to", "text_utf8", "reads-16", "reads-1", "split-bytes"] {
             let l = TcpListener::bind("127.0.0.1:0").unwrap();
             let port = l.local_addr().unwrap().port();
@@ -1046,7 +1046,7 @@ fn vp_native_stalled_body_is_an_error_body() {
             }
             cases += 1; crate::verif_native_watchdog::progress();
         }
-        cases })
+        cases }).unwrap()
     }).collect();
     for h in handles { cases += h.join().unwrap_or_else(|p| std::panic::resume_unwind(p)); }
     println!("VP-NATIVE stalled_body_is_an_error cases={}", cases);
@@ -1059,10 +1059,10 @@ fn vp_native_resumed_body_keeps_prefix() { crate::verif_native_watchdog::watched
 fn vp_native_resumed_body_keeps_prefix_body() {
     let payload: Vec<u8> = (0..62u8).map(|i| b'A' + i % 50).collect();
     let mut cases = 0u64;
-    let handles: Vec<std::thread::JoinHandle<u64>> = ["length", "chunked", "close"].into_iter().flat_map(|shape| [0usize, 20, 61].into_iter().map(move |cut| (shape, cut))).map(|(shape, cut)| {
+    let handles: Vec<std::thread::JoinHandle<(u64, u64)>> = ["length", "chunked", "close"].into_iter().flat_map(|shape| [0usize, 20, 61].into_iter().map(move |cut| (shape, cut))).map(|(shape, cut)| {
         let payload = payload.clone();
-        std::thread::spawn(move || { let mut cases = 0u64;
-        for bsize in [1usize, 16, 42, 62, 4096] { for with_head in [true, false] {
+        std::thread::Builder::new().name("worker of vp_native_resumed_body_keeps_prefix".into()).spawn(move || { let mut cases = 0u64; let mut skipped = 0u64;
+        for bsize in [1usize, 16, 42, 62, 4096] { for with_head in [true, false] { for attempt in 0..6 {
             let l = TcpListener::bind("127.0.0.1:0").unwrap();
             let port = l.local_addr().unwrap().port();
             let p2 = payload.clone();
@@ -1086,7 +1086,13 @@ fn vp_native_resumed_body_keeps_prefix_body() {
                 }
             });
             let ctx = format!("{}-delimited body of 62 bytes, {} bytes {} then a pause past the read timeout, caller reads of {} bytes and reads again after each error", shape, cut, if with_head { "with the head" } else { "after the head" }, bsize);
-            let mut resp = crate::get(format!("http://127.0.0.1:{}/", port)).proxy_settings(crate::ProxySettings::builder().build()).read_timeout(std::time::Duration::from_millis(120)).send().unwrap_or_else(|e| panic!("the head arrived completely ({}): {}", ctx, e));
+            // the short read timeout also covers the head: on a loaded machine the head itself can be late, which says nothing
+            // about the property - the case is tried again (and given up without a verdict after six attempts)
+            let mut resp = match crate::get(format!("http://127.0.0.1:{}/", port)).proxy_settings(crate::ProxySettings::builder().build()).read_timeout(std::time::Duration::from_millis(120)).send() {
+                Ok(r) => r,
+                Err(_) if attempt < 5 => continue,
+                Err(_) => { skipped += 1; break; }
+            };
             let mut got = Vec::new(); let mut errors = 0;
             for _ in 0..400 {
                 let mut b = vec![0u8; bsize];
@@ -1099,10 +1105,13 @@ fn vp_native_resumed_body_keeps_prefix_body() {
                 assert!(got.len() <= payload.len() && got[..] == payload[..got.len()], "bytes handed out are not a prefix of the payload ({}; {} errors so far): {:?}", ctx, errors, String::from_utf8_lossy(&got));
             }
             cases += 1; crate::verif_native_watchdog::progress();
-        } }
-        cases })
+            break;
+        } } }
+        (cases, skipped) }).unwrap()
     }).collect();
-    for h in handles { cases += h.join().unwrap_or_else(|p| std::panic::resume_unwind(p)); }
+    let mut skipped = 0u64;
+    for h in handles { let (c, k) = h.join().unwrap_or_else(|p| std::panic::resume_unwind(p)); cases += c; skipped += k; }
+    if skipped > 0 { println!("VP-NATIVE-NOTE resumed_body_keeps_prefix: {} cases given up because the head did not arrive within the short read timeout", skipped); }
     println!("VP-NATIVE resumed_body_keeps_prefix cases={}", cases);
 }
 
